@@ -20,19 +20,20 @@ const repoPkgPath = "github.com/ochinchina/sipproxy"
 
 // World is the resolved program every rule works on.
 type World struct {
-	Dir      string
-	Fset     *token.FileSet
-	Pkg      *packages.Package
-	Prog     *ssa.Program
-	Main     *ssa.Package
-	CG       *callgraph.Graph
-	Funcs    map[string]*ssa.Function // by RelString relative to main, source functions only
-	All      []*ssa.Function          // source functions of the main package, sorted by name
-	Files    int
-	Excluded []string // .go files excluded from the default build configuration by a build constraint (not analysed)
-	Inlined  []string // new single-call-site helpers inlined into their callers before the analysis
-	Renamed  []string // baseline function -> its new name, recognised by receiver and signature
-	alias    map[*ssa.Function]string
+	Dir          string
+	Fset         *token.FileSet
+	Pkg          *packages.Package
+	Prog         *ssa.Program
+	Main         *ssa.Package
+	CG           *callgraph.Graph
+	funcBindings map[interface{}][]ssa.Value // func-typed fields / package variables -> values stored (boundFunc)
+	Funcs        map[string]*ssa.Function    // by RelString relative to main, source functions only
+	All          []*ssa.Function             // source functions of the main package, sorted by name
+	Files        int
+	Excluded     []string // .go files excluded from the default build configuration by a build constraint (not analysed)
+	Inlined      []string // new single-call-site helpers inlined into their callers before the analysis
+	Renamed      []string // baseline function -> its new name, recognised by receiver and signature
+	alias        map[*ssa.Function]string
 
 	flow      *flowGraph // lazily built
 	writerSet map[*ssa.Function]bool
